@@ -1,3 +1,16 @@
 import XotModel.Props.C07
 open XotModel.Props
+#print axioms C07_docLt_iff_lt
+#print axioms C07_allPre
+#print axioms C07_pre
+#print axioms C07_descendants
+#print axioms C07_axis_descendant
+#print axioms C07_axis_descendant_abnormal
+#print axioms C07_following
+#print axioms C07_preceding
+#print axioms C07_axis_ancestor
+#print axioms C07_partition
+#print axioms C07_partition_disjoint
+#print axioms C07_partition_abnormal
+#print axioms C07_order
 #print axioms C07_root
